@@ -573,7 +573,7 @@ func (c *Channel) StartInFlightTimeout(msg *Message, clientID int64, timeout tim
 	msg.clientID = clientID
 	msg.deliveryTS = now
 	msg.pri = now.Add(timeout).UnixNano()
-	verif.Ev("IFStart", "c", vc(c), "id", vid(msg.ID), "k", clientID, "pri", msg.pri, "dts", now.UnixNano(), "tmo", int64(timeout))
+	verif.Ev("IFStart", "c", vc(c), "id", vid(msg.ID), "k", clientID, "pri", msg.pri, "dts", msg.deliveryTS.UnixNano(), "tmo", int64(timeout))
 	err := c.pushInFlightMessage(msg)
 	if err != nil {
 		return err
